@@ -287,3 +287,52 @@ func verifC14_foreign() {
 	c.CloseNow()
 	vObserve("c14foreign", int(mode), resp, len(g.msgs))
 }
+
+// C14.twice: the parameters a connection holds are fixed by its own handshake. Two handshakes in a row on one server
+// (every pair of offers from a small grid, either mode; also a client dialing twice): what the first one agreed on is
+// still what its connection holds after the second, and the second is decided as if it were the first.
+func verifC14_twice() {
+	mode := CompressionMode(1 + vChoose("mode", 2))
+	offers := []string{
+		"permessage-deflate",
+		"permessage-deflate; client_no_context_takeover",
+		"permessage-deflate; server_no_context_takeover",
+		"permessage-deflate; client_no_context_takeover; server_no_context_takeover",
+		"permessage-deflate; client_no_context_takeover; server_max_window_bits=10", // declined half way through
+	}
+	sel := func(offer string) (*compressionOptions, bool) {
+		h := http.Header{}
+		h.Set("Sec-WebSocket-Extensions", offer)
+		return selectDeflate(websocketExtensions(h), mode)
+	}
+	o1 := offers[vChoose("first", len(offers))]
+	o2 := offers[vChoose("second", len(offers))]
+	vClassify("first", o1)
+	vClassify("second", o2)
+	c1, ok1 := sel(o1)
+	var snap compressionOptions
+	if c1 != nil {
+		snap = *c1
+	}
+	c2, ok2 := sel(o2)
+	vReach("C14.twice.decided")
+	if c1 != nil {
+		vAssert(*c1 == snap, "C14.twice.first-connection-keeps-its-parameters")
+	}
+	// the second decision equals the decision the same offer gets on its own
+	r2, rok2 := sel(o2)
+	vAssert(ok2 == rok2, "C14.twice.second-decided-independently")
+	if c2 != nil && r2 != nil {
+		wantC := strings.Contains(o2, "client_no_context_takeover") || mode == CompressionNoContextTakeover
+		wantS := strings.Contains(o2, "server_no_context_takeover") || mode == CompressionNoContextTakeover
+		vAssert(vAnd(c2.clientNoContextTakeover == wantC, c2.serverNoContextTakeover == wantS), "C14.twice.second-parameters")
+	}
+	_ = ok1
+	// the client side: the options a dial starts from are its own
+	m1 := mode.opts()
+	m1.clientNoContextTakeover = true
+	m1.serverNoContextTakeover = true
+	m2 := mode.opts()
+	vAssert(vAnd(m2.clientNoContextTakeover == (mode == CompressionNoContextTakeover), m2.serverNoContextTakeover == (mode == CompressionNoContextTakeover)), "C14.twice.mode-options-are-fresh")
+	vObserve("c14twice", int(mode), o1, o2, ok1, ok2)
+}
